@@ -46,7 +46,7 @@ theorem lingo_tree : ∀ (s : Stmt), FragX s = true → ∀ (n : Node), EmbT s n
   | .repeatWhile c b, hf, n, h, ind => by
     obtain ⟨p, rp, re, cn, body, rfl, hc, hb⟩ := h
     simp only [FragX, Bool.and_eq_true] at hf
-    obtain ⟨⟨hfc, _⟩, hfb⟩ := hf
+    obtain ⟨hfc, hfb⟩ := hf
     have e1 := lingo_emb c hfc cn hc 0
     have e2 := lingo_trees b hfb body hb (ind + 1)
     simp only [lingo, e1, e2, if_true, bind, Except.bind, pure, Except.pure, Lscr.Name.asStr, Lscr.Name.str, mS, mCond,
